@@ -1,4 +1,5 @@
 import CffiVerif.Model.Index
+import CffiVerif.Generated.BufferExprs
 /-
 Model of the `ffi.buffer` object (src/c/minibuffer.h: `mb_item`, `mb_ass_item`,
 `mb_slice`, `mb_ass_slice`, `mb_subscript`, `mb_ass_subscript`), of CPython's
@@ -22,6 +23,19 @@ correctly).
 namespace CffiVerif.Buffer
 open CffiVerif.Mem
 open CffiVerif.Index (PyArg ssizeMin ssizeMax fitsSsize)
+
+/- Every bound test, clamp and length computation below comes from
+Generated/BufferExprs.lean, re-extracted from minibuffer.h / _cffi_backend.c on every
+check run (translate/c19_exprs.py); only the control structure is written by hand. -/
+namespace G
+export CffiVerif.Generated.BufferExprs (itemRejected assItemRejected sliceLeftNegative sliceLeftFloor
+  sliceRightTooLarge sliceRightCeil sliceLeftAfterRight sliceLeftCollapse sliceCount assSliceLeftNegative
+  assSliceLeftFloor assSliceRightTooLarge assSliceRightCeil assSliceLeftAfterRight assSliceLeftCollapse
+  assSliceCount assSliceLenMismatch subIndexNegative subIndexFixup assSubIndexNegative assSubIndexFixup
+  bufExplicitSize bufSizeAbsent bufArraySize bufSizeUnknown fbFixedLength fbMinimumLength fbFixedArrayLength
+  fbItemSizeOne fbLengthSizeOne fbItemSizePositive fbLengthDiv fbTooSmall cdataLenUnknown cdataItemSizeKnown
+  cdataArrayLen memmoveNegative)
+end G
 
 inductive Err
   | IndexError | TypeError | ValueError | OverflowError | BufferError | ZeroDivisionError | Fault
@@ -84,11 +98,18 @@ def sliceBounds (size : Nat) (start stop step : PyArg) : Except Err (Int × Int)
     let e' := adjustIdx size e st
     if st = 1 then .ok (s', e') else .error .TypeError
 
-/-- The three clamps at the top of `mb_slice` / `mb_ass_slice`. -/
+/-- The three clamps at the top of `mb_slice`. -/
 def clampLR (size left right : Int) : Int × Int :=
-  let left := if left < 0 then 0 else left
-  let right := if right > size then size else right
-  let left := if left > right then right else left
+  let left := if G.sliceLeftNegative left then G.sliceLeftFloor left else left
+  let right := if G.sliceRightTooLarge right size then G.sliceRightCeil size else right
+  let left := if G.sliceLeftAfterRight left right then G.sliceLeftCollapse right else left
+  (left, right)
+
+/-- The three clamps at the top of `mb_ass_slice`. -/
+def clampLRAss (size left right : Int) : Int × Int :=
+  let left := if G.assSliceLeftNegative left then G.assSliceLeftFloor left else left
+  let right := if G.assSliceRightTooLarge right size then G.assSliceRightCeil size else right
+  let left := if G.assSliceLeftAfterRight left right then G.assSliceLeftCollapse right else left
   (left, right)
 
 /-- `mb_subscript` with a slice. -/
@@ -97,11 +118,11 @@ def getslice (m : Bytes) (b : Buf) (start stop step : PyArg) : Except Err Bytes 
   | .error e => .error e
   | .ok (s, e) =>
     let (l, r) := clampLR b.size s e
-    match read m (b.data + l.toNat) (r - l).toNat with
+    match read m (b.data + l.toNat) (G.sliceCount l r).toNat with
     | some bs => .ok bs
     | none => .error .Fault
 
-/-- `mb_subscript` / `mb_ass_subscript` with an index: position inside the buffer. -/
+/-- `mb_subscript` + `mb_item` with an index: position inside the buffer. -/
 def normIndex (size : Nat) (key : PyArg) : Except Err Nat :=
   match key with
   | .none => .error .TypeError
@@ -109,8 +130,19 @@ def normIndex (size : Nat) (key : PyArg) : Except Err Nat :=
   | .int i =>
     if ¬ fitsSsize i then .error .IndexError
     else
-      let j := if i < 0 then i + size else i
-      if j < 0 ∨ j ≥ size then .error .IndexError else .ok j.toNat
+      let j := if G.subIndexNegative i then G.subIndexFixup i size else i
+      if G.itemRejected j size then .error .IndexError else .ok j.toNat
+
+/-- `mb_ass_subscript` + `mb_ass_item` with an index. -/
+def normIndexAss (size : Nat) (key : PyArg) : Except Err Nat :=
+  match key with
+  | .none => .error .TypeError
+  | .other => .error .TypeError
+  | .int i =>
+    if ¬ fitsSsize i then .error .IndexError
+    else
+      let j := if G.assSubIndexNegative i then G.assSubIndexFixup i size else i
+      if G.assItemRejected j size then .error .IndexError else .ok j.toNat
 
 def getitem (m : Bytes) (b : Buf) (key : PyArg) : Except Err Bytes :=
   match normIndex b.size key with
@@ -126,7 +158,7 @@ inductive Val
   | other                 -- anything else
 
 def setitem (m : Bytes) (b : Buf) (key : PyArg) (v : Val) : Bytes × Except Err Unit :=
-  match normIndex b.size key with
+  match normIndexAss b.size key with
   | .error e => (m, .error e)
   | .ok i =>
     match v with
@@ -151,7 +183,8 @@ inductive Src
   | cother                      -- any other cdata: TypeError
 
 /-- `view->len` that `_fetch_as_buffer` reports for a cdata array. -/
-def carrayLen (n : Nat) (isize : Int) : Int := if isize ≥ 0 then n * isize else -1
+def carrayLen (n : Nat) (isize : Int) : Int :=
+  if G.cdataItemSizeKnown isize then G.cdataArrayLen n isize else G.cdataLenUnknown isize
 
 /-- `mb_ass_subscript` with a slice. -/
 def setslice (m : Bytes) (b : Buf) (start stop step : PyArg) (src : Src) : Bytes × Except Err Unit :=
@@ -161,32 +194,32 @@ def setslice (m : Bytes) (b : Buf) (start stop step : PyArg) (src : Src) : Bytes
     match src with
     | .notBuffer => (m, .error .TypeError)
     | .bytes bs =>
-      let (l, r) := clampLR b.size s e
-      if (r - l) ≠ bs.length then (m, .error .ValueError)
+      let (l, r) := clampLRAss b.size s e
+      if G.assSliceLenMismatch (G.assSliceCount l r) bs.length then (m, .error .ValueError)
       else match write m (b.data + l.toNat) bs with
         | some m' => (m', .ok ())
         | none => (m, .error .Fault)
     | .view pos len =>
-      let (l, r) := clampLR b.size s e
-      if (r - l) ≠ len then (m, .error .ValueError)
+      let (l, r) := clampLRAss b.size s e
+      if G.assSliceLenMismatch (G.assSliceCount l r) len then (m, .error .ValueError)
       else match memmove m (b.data + l.toNat) pos len with
         | some m' => (m', .ok ())
         | none => (m, .error .Fault)
     | .cother => (m, .error .TypeError)
     | .cptr =>
-      let (l, r) := clampLR b.size s e
-      if (r - l) ≠ -1 then (m, .error .ValueError) else (m, .error .Fault)
+      let (l, r) := clampLRAss b.size s e
+      if G.assSliceLenMismatch (G.assSliceCount l r) (G.cdataLenUnknown 0) then (m, .error .ValueError) else (m, .error .Fault)
     | .carray n isize loc =>
-      let (l, r) := clampLR b.size s e
-      if (r - l) ≠ carrayLen n isize then (m, .error .ValueError)
+      let (l, r) := clampLRAss b.size s e
+      if G.assSliceLenMismatch (G.assSliceCount l r) (carrayLen n isize) then (m, .error .ValueError)
       else match loc with
         | .ext bs =>
-          if bs.length ≠ (r - l).toNat then (m, .error .Fault)      -- ill-formed description
+          if bs.length ≠ (G.assSliceCount l r).toNat then (m, .error .Fault)      -- ill-formed description
           else match write m (b.data + l.toNat) bs with
             | some m' => (m', .ok ())
             | none => (m, .error .Fault)
         | .at pos =>
-          match memmove m (b.data + l.toNat) pos (r - l).toNat with
+          match memmove m (b.data + l.toNat) pos (G.assSliceCount l r).toNat with
           | some m' => (m', .ok ())
           | none => (m, .error .Fault)
 
@@ -231,18 +264,19 @@ def argOfOpt : Option Int → PyArg
 
 /-- `b_buffer_new`: resulting size; `given` is the optional size argument,
 `dflt` the size the cdata's type implies (`none`: unknown). -/
+def bufferFinish (size : Int) (dflt : Option Nat) : Except Err Nat :=
+  let size1 : Int :=
+    if G.bufSizeAbsent size then
+      match dflt with
+      | some d => d
+      | none => size
+    else size
+  if G.bufSizeUnknown size1 then .error .TypeError else .ok size1.toNat
+
 def bufferSize (given : Option Int) (dflt : Option Nat) : Except Err Nat :=
   match given with
-  | some g =>
-    if ¬ fitsSsize g then .error .OverflowError
-    else if g ≥ 0 then .ok g.toNat
-    else match dflt with
-      | some d => .ok d
-      | none => .error .TypeError
-  | none =>
-    match dflt with
-    | some d => .ok d
-    | none => .error .TypeError
+  | some g => if ¬ fitsSsize g then .error .OverflowError else bufferFinish g dflt
+  | none => bufferFinish (-1) dflt          -- the C default of the optional argument
 
 /-! ### `ffi.from_buffer` -/
 
@@ -261,6 +295,18 @@ inductive Obj
   | notBuffer
 deriving Repr, DecidableEq
 
+/-- The array branch of `direct_from_buffer`: `ctlength` is `ct->ct_length` (-1 for `T[]`),
+`ctsize` is `ct->ct_size` of a fixed-length array type. -/
+def fromBufferArray (isize ctlength ctsize : Int) (len : Nat) : Except Err Nat :=
+  if G.fbFixedLength ctlength then
+    if G.fbTooSmall len (G.fbMinimumLength ctsize) then .error .ValueError
+    else .ok (G.fbFixedArrayLength ctlength).toNat
+  else if G.fbItemSizeOne isize then
+    if G.fbTooSmall len 0 then .error .ValueError else .ok (G.fbLengthSizeOne len).toNat
+  else if G.fbItemSizePositive isize then
+    if G.fbTooSmall len 0 then .error .ValueError else .ok (G.fbLengthDiv len isize).toNat
+  else .error .ZeroDivisionError
+
 /-- `direct_from_buffer`: the length stored in the new cdata. -/
 def fromBuffer (ct : CT) (x : Obj) (requireWritable : Bool) : Except Err Nat :=
   match ct with
@@ -274,12 +320,8 @@ def fromBuffer (ct : CT) (x : Obj) (requireWritable : Bool) : Except Err Nat :=
       if (requireWritable ∧ ro) ∨ ¬ contig then .error .BufferError
       else match ct with
         | .ptr => .ok len
-        | .arrayFixed isize n =>
-          if (len : Int) < isize * n then .error .ValueError else .ok n
-        | .arrayOpen isize =>
-          if isize = 1 then .ok len
-          else if isize > 0 then .ok (len / isize.toNat)
-          else .error .ZeroDivisionError
+        | .arrayFixed isize n => fromBufferArray isize n (isize * n) len
+        | .arrayOpen isize => fromBufferArray isize (-1) (-1) len
         | .other => .error .TypeError
 
 /-! ### `ffi.memmove` -/
@@ -300,7 +342,7 @@ def memmoveOp (m : Bytes) (dest src : Obj) (n : PyArg) : Bytes × Except Err Uni
   | .other => (m, .error .TypeError)
   | .int k =>
     if ¬ fitsSsize k then (m, .error .OverflowError)
-    else if k < 0 then (m, .error .ValueError)
+    else if G.memmoveNegative k then (m, .error .ValueError)
     else match fetch src false with
       | .error e => (m, .error e)
       | .ok sp =>
